@@ -117,6 +117,7 @@ def main():
     known_open = [k for k in known if k.get("status") == "known"]
     violations, undecided, errors, known_lines = [], [], [], []
     ob_records, functions, assumed_contracts, ghost_assumes = [], [], set(), []
+    used_verified = set()
     solver_time = 0.0
 
     # ------------------------------------------------------------------ 1. deductive part
@@ -177,9 +178,15 @@ def main():
                     o["function"] = r["target"]
                     packed.append(o)
                 probes += r["probes"]
-        for c in reg.contracts.values():
-            if c.extern:
-                assumed_contracts.add("%s%s" % (c.target, (" -- " + c.trusted_reason) if c.trusted_reason else ""))
+                for tname in r.get("applied_contracts", []):
+                    c = reg.contracts.get(tname)
+                    if c is None:
+                        continue
+                    if c.extern or tname.startswith("ext::"):
+                        # assumed: a model of a library / OS call, or a call-site view of a repository function
+                        assumed_contracts.add("%s%s" % (c.target, (" -- " + c.trusted_reason) if c.trusted_reason else ""))
+                    else:
+                        used_verified.add(c.target)
         t_sym = time.time() - t_start
         texts = [o["smt2"] for o in packed]
         results = solve.discharge_texts(texts, timeout_s=timeout_s, cores=[o.get("core") for o in packed])
@@ -297,6 +304,13 @@ def main():
             json.dump(doc, open(path, "w", encoding="utf-8"), indent=1)
             violations.append((path, bool(fails), rec["name"]))
         elif rec["status"] != "unsat":
+            k = known_match("obligation", rec["name"])
+            if k is not None:
+                # an obligation that a listed known finding says cannot hold: `unknown` instead of `sat` changes nothing
+                matched_known.setdefault(k["id"], []).append(rec["name"])
+                rec["known_finding"] = k["id"]
+                n_known_obl += 1
+                continue
             undecided.append({"obligation": rec["name"], "reason": rec.get("detail", "")[:300]})
 
     for c in rt_checks:
@@ -348,7 +362,8 @@ def main():
         "obligations": n_obl - n_known_obl, "discharged": n_dis,
         "obligations_failing_as_listed_known_findings": n_known_obl,
         "checker_cmd": "cd /verif && ./check %s --tier %s" % (prop, tier),
-        "trusted_base": sorted(pm.get("assumes", [])) + sorted("assumed contract: " + a for a in assumed_contracts if any(t in a for t in pm.get("ext_used", [""]))),
+        "trusted_base": sorted(pm.get("assumes", [])) + sorted("assumed contract (applied by this run): " + a for a in assumed_contracts),
+        "callee_contracts_relied_on_and_verified_elsewhere": sorted(used_verified),
         "functions_under_contract": functions,
         "back_ends": sorted(set(r["solver"] for r in ob_records)),
         "solver_time_s": round(solver_time, 2),
